@@ -352,3 +352,7 @@ Fixpoint foldM {S A} (f : S -> A -> res S) (l : list A) (s : S) : res S :=
 
 (* the five scheduling methods of a Scheduler *)
 Inductive pymethod := M_cyclic | M_minutely | M_hourly | M_daily | M_weekly.
+
+(* ---- the supervising coroutine of the asyncio Scheduler, between two suspension points -------------------- *)
+(* what the coroutine does next: suspend in asyncio.sleep(d) (then run the job's coroutine), or leave the loop *)
+Inductive supstep := SupSleep (d : timedelta) (reference : datetime) | SupDone.
